@@ -8,6 +8,9 @@ Block writer (state = `Sqfs.BlockWriter.State`)
 * `bw-init <prehex> <wrflags-dec>`                      → `ok`
 * `bw-write <chk-hex> <flags-hex> <datahex>`            → `ok <loc> <filesize> <nblocks>` | `err oob` | `err internal`
 * `bw-file`                                             → `file <hex>`
+Checksum-free specification of the block writer (state = `Sqfs.BlockWriter.SState`)
+* `sp-init <prehex>`                                    → `ok`
+* `sp-write <flags-hex> <datahex>`                      → `ok <loc> <filesize> <nblocks>`
 Fragment side (state = `Sqfs.FragDedup.State`; the checksum function is the table of all `(data, chk)` pairs
 seen so far, i.e. the checksums the *implementation's* worker computed)
 * `fd-init <maxblock-dec> <toy|ident> <bytecompare:0|1>`  → `ok`
@@ -31,6 +34,7 @@ def hexNat (s : String) : Option Nat :=
 
 structure St where
   bw : State := init []
+  sp : SState := ⟨[], [], 0⟩
   fd : Sqfs.FragDedup.State := {}
   codec : Sqfs.FragDedup.Codec := Sqfs.ToyCodec.ident
   byteCompare : Bool := true
@@ -67,6 +71,16 @@ def step (st : St) (line : String) : St × String :=
       | .error e => (st, showErr e)
     | _, _, _ => (st, "bad-op")
   | ["bw-file"] => (st, "file " ++ toHexTok st.bw.file)
+  | ["sp-init", pre] =>
+    match fromHex pre with
+    | some p => ({ st with sp := ⟨p, [], 0⟩ }, "ok")
+    | none => (st, "bad-op")
+  | ["sp-write", flags, data] =>
+    match hexNat flags, fromHex data with
+    | some f, some d =>
+      let r := specWrite st.sp f d
+      ({ st with sp := r.1 }, s!"ok {r.2} {r.1.file.length} {r.1.hist.length}")
+    | _, _ => (st, "bad-op")
   | ["fd-init", mb, codec, bc] =>
     match mb.toNat?, bc.toNat? with
     | some m, some b =>
